@@ -43,7 +43,7 @@ def view(o):
 
 
 def run(tier, seed, rng):
-    ng = 60 if tier == 'quick' else 600
+    ng = 60 if tier == 'quick' else 2000
     feats = lambda g: dict(begins_ref=False, clsopts=False, neg_moves=(g % 3 == 0), seq_align=False)
     groups = pktprops.make_groups(rng, ng, feats, values_per_class=3 if tier == 'quick' else 5, offsets=(1, 3, 6), maxcuts=6, flips=1,
                                   defaults=False, cut_with_prefix=True)
